@@ -68,6 +68,9 @@ class VMDK(AlignedStream):
                     elif extent.type in ["VMFS", "FLAT"]:
                         rdisk_fh = path.with_name(extent.filename).open("rb")
                         self.disks.append(RawDisk(rdisk_fh, extent.sectors * SECTOR_SIZE))
+                    elif extent.type == "ZERO":
+                        # Zero extents have no backing file, but do occupy their sector range
+                        self.disks.append(ZeroDisk(extent.sectors * SECTOR_SIZE))
 
             elif magic in (COWD_MAGIC, VMDK_MAGIC, SESPARSE_MAGIC):
                 sparse_disk = SparseDisk(fh)
@@ -144,6 +147,19 @@ class RawDisk:
 
         self.fh.seek((sector - self.sector_offset) * SECTOR_SIZE)
         return self.fh.read(count * SECTOR_SIZE)
+
+
+class ZeroDisk:
+    """An extent without backing storage that reads as all zeroes (``ZERO`` extent type)."""
+
+    def __init__(self, size: int, offset: int = 0, sector_offset: int = 0):
+        self.size = size
+        self.offset = offset
+        self.sector_offset = sector_offset
+        self.sector_count = size // SECTOR_SIZE
+
+    def read_sectors(self, sector: int, count: int) -> bytes:
+        return b"\x00" * (count * SECTOR_SIZE)
 
 
 class SparseDisk:
